@@ -93,6 +93,64 @@ fn clock_mark(on: bool) {
     }
 }
 
+/// True when the process runs under the clock seam (`clockwarp.so` is preloaded).
+fn clock_seam_present() -> bool {
+    extern "C" {
+        fn dlsym(handle: *mut std::ffi::c_void, symbol: *const std::ffi::c_char) -> *mut std::ffi::c_void;
+    }
+    static SEAM: std::sync::OnceLock<bool> = std::sync::OnceLock::new();
+    *SEAM.get_or_init(|| !unsafe { dlsym(std::ptr::null_mut(), b"dexsim_clock_mark\0".as_ptr() as *const std::ffi::c_char) }.is_null())
+}
+
+#[cfg(target_arch = "x86_64")]
+const NR_CLOCK_GETTIME_NANOSLEEP: (std::ffi::c_long, std::ffi::c_long) = (228, 35);
+#[cfg(target_arch = "aarch64")]
+const NR_CLOCK_GETTIME_NANOSLEEP: (std::ffi::c_long, std::ffi::c_long) = (113, 101);
+
+/// The real monotonic clock and a real sleep, through raw system calls: the clock seam is a shim
+/// over the libc entry points, and the harness's own watchdog must keep working under it.
+fn raw_monotonic_ns() -> u128 {
+    extern "C" {
+        fn syscall(num: std::ffi::c_long, ...) -> std::ffi::c_long;
+    }
+    let mut ts = [0i64; 2];
+    unsafe { syscall(NR_CLOCK_GETTIME_NANOSLEEP.0, 1 as std::ffi::c_long, ts.as_mut_ptr()) };
+    ts[0] as u128 * 1_000_000_000 + ts[1] as u128
+}
+fn raw_sleep_us(us: i64) {
+    extern "C" {
+        fn syscall(num: std::ffi::c_long, ...) -> std::ffi::c_long;
+    }
+    let ts = [0i64, us * 1000];
+    unsafe { syscall(NR_CLOCK_GETTIME_NANOSLEEP.1, ts.as_ptr(), std::ptr::null_mut::<i64>()) };
+}
+
+/// `recv_timeout` that also works under the clock seam, where every reading of the libc clock
+/// lands an hour after the previous one (std's timed waits would all expire at once).
+fn recv_watch<T>(rx: &std::sync::mpsc::Receiver<T>, timeout: Duration) -> Result<T, RecvTimeoutError> {
+    if !clock_seam_present() {
+        return rx.recv_timeout(timeout);
+    }
+    let t0 = raw_monotonic_ns();
+    let mut polls = 0u32;
+    loop {
+        match rx.try_recv() {
+            Ok(v) => return Ok(v),
+            Err(std::sync::mpsc::TryRecvError::Disconnected) => return Err(RecvTimeoutError::Disconnected),
+            Err(std::sync::mpsc::TryRecvError::Empty) => {}
+        }
+        polls += 1;
+        if polls < 400 {
+            std::thread::yield_now();
+        } else {
+            raw_sleep_us(if polls < 2000 { 20 } else { 500 });
+            if raw_monotonic_ns() - t0 > timeout.as_nanos() {
+                return Err(RecvTimeoutError::Timeout);
+            }
+        }
+    }
+}
+
 fn is_compile_error_path(p: &syn::Path) -> bool {
     p.segments
         .last()
@@ -533,6 +591,17 @@ fn controller(plan: &Plan, opts: &ExecOptions, main: Worker) -> (ExecLog, bool) 
         seam_active: seam_active(),
         ..Default::default()
     };
+    if clock_seam_present() {
+        // the seam must be live: two readings of the wall clock and of the monotonic clock, taken
+        // back to back by the harness, have to lie about an hour apart (otherwise: harness error)
+        let (a, i) = (std::time::SystemTime::now(), std::time::Instant::now());
+        let (b, j) = (std::time::SystemTime::now(), std::time::Instant::now());
+        let wall = b.duration_since(a).map(|d| d.as_secs()).unwrap_or(0);
+        if wall < 3000 || j.duration_since(i).as_secs() < 3000 {
+            eprintln!("dexsim: the clock seam is preloaded but readings do not jump (harness error)");
+            std::process::exit(2);
+        }
+    }
     let mut workers: BTreeMap<String, Worker> = BTreeMap::new();
     workers.insert("main".into(), main);
     // session model: req idx -> index into log.inputs, plus the text of the first output
@@ -572,7 +641,7 @@ fn controller(plan: &Plan, opts: &ExecOptions, main: Worker) -> (ExecLog, bool) 
                     let _ = tx.send(expand_and_observe_known(&r2, k2.as_ref()));
                 })
                 .expect("spawn fresh thread");
-            match rx.recv_timeout(opts.timeout) {
+            match recv_watch(&rx, opts.timeout) {
                 Ok(o) => {
                     let _ = h.join();
                     o
@@ -602,7 +671,7 @@ fn controller(plan: &Plan, opts: &ExecOptions, main: Worker) -> (ExecLog, bool) 
             }
             let w = &workers[&step.thread];
             w.tx.send(Some((req.clone(), known.clone()))).expect("worker alive");
-            match w.rx.recv_timeout(opts.timeout) {
+            match recv_watch(&w.rx, opts.timeout) {
                 Ok(o) => o,
                 Err(RecvTimeoutError::Timeout) => {
                     dead = true;
